@@ -11,6 +11,11 @@ Stage B (correspondence with coq/Cli.v, evaluated by vm_compute):
               stops at the same point, keeps the same errors (identity, order), leaves the same items
   resolve     bodies._resolve_reference on random reference tables (cycles, self loops, dangling, shared simple names) and on
               every call made during generation
+  source      --url against a local HTTP server (127.0.0.1, ephemeral port): {no Content-Type, json, yaml, text, json+charset, garbage...}
+              x URL path {no extension, .json, .yaml, .yml, .txt, query, trailing slash...} x body {valid JSON, valid YAML, junk, empty}
+              x status {200, 404, 500, redirect, closed socket, refused, malformed URL}: the content type handed to the loader and
+              the parser that ran = Norm.content_type_of / choose_parser (C17's loader_dispatch model); in-process and through the
+              CLI; plus --url with --path, neither, --path to a directory / missing / binary / extension-less file
   cli         the CLI end to end in subprocesses (wall-clock limit): exit status = model's exit code for the diagnostics the
               in-process run returned; no traceback; directory listing unchanged when the document is rejected
 Stage C (what no theorem reaches): junk bytes as JSON / YAML, JSON values as documents, non-OpenAPI dicts, single and double
@@ -25,8 +30,20 @@ from gen import mutate, docs as gdocs, schemas as gschemas
 WORKER = str(Path(__file__).resolve().parents[1] / "lib" / "c06_worker.py")
 LIMIT = 20.0          # wall-clock limit per case (in-process and CLI)
 
-HDR = r"""Require Import OPC.Uni OPC.Names OPC.Fs OPC.Retry OPC.gen.GenCli OPC.Cli.
+HDR = r"""Require OPC.Norm.
+Require Import OPC.Uni OPC.Names OPC.Fs OPC.Retry OPC.gen.GenCli OPC.Cli.
 Open Scope N_scope.
+Definition ostr_eqb (a b : option str) : bool :=
+  match a, b with None, None => true | Some x, Some y => str_eqb x y | _, _ => false end.
+(* the loader dispatch of _get_document is the one of Norm.v (C17 loader_dispatch): content type = header up to the first
+   semicolon when the header is present, else mimetypes' guess for the URL (runtime oracle); JSON parser iff application/json *)
+Definition check_source (hdr guessed observed_ct : option str) (parser_seen : option bool) : bool :=
+  let src := Norm.SUrl (Some (Norm.Build_response [] hdr)) guessed in
+  ostr_eqb (Norm.content_type_of src) observed_ct
+  && match parser_seen with
+     | None => true
+     | Some is_json => Norm.parser_eqb (Norm.choose_parser (Norm.content_type_of src)) (if is_json then Norm.PJson else Norm.PYaml)
+     end.
 Fixpoint ln_eqb (a b : list N) : bool :=
   match a, b with [] , [] => true | x :: a', y :: b' => (x =? y) && ln_eqb a' b' | _, _ => false end.
 Definition diag_eqb (a b : diag) : bool := level_eqb (d_level a) (d_level b) && (d_id a =? d_id b).
@@ -186,6 +203,8 @@ def classify_exc(exc, case, res):
         return "yaml_bigint_crash"
     if typ == "ValueError" and site == "parser/properties/schemas.py:parse_reference_path":
         return "ref_urlparse_crash"
+    if typ in ("IsADirectoryError", "FileNotFoundError", "PermissionError") and site == "__init__.py:_get_document" and case.get("path_kind") in ("dir", "missing"):
+        return "source_path_oserror"
     if typ == "OSError" and site in ("__init__.py:_build_api", "__init__.py:_build_models") and exc[3].startswith("[Errno 36]"):
         return "name_too_long_oserror"
     # const_multipart_crash (UndefinedError 'transform_multipart' @ templates/model.py.jinja) was repaired in /repo 6f2d009: no
@@ -194,6 +213,8 @@ def classify_exc(exc, case, res):
 
 
 def raw_bytes(case):
+    if "hex" not in case and "text" not in case:
+        return b""
     return bytes.fromhex(case["hex"]) if "hex" in case else case["text"].encode("utf-8", "surrogatepass")
 
 
@@ -434,6 +455,183 @@ def loop_docs():
     ]
 
 
+# ------------------------------------------------------------------ the document-SOURCE dimension: --url against a local server
+class SourceServer:
+    """http.server on 127.0.0.1, ephemeral port, in a thread.  The first path segment /k<N>/ selects a scenario
+    {status, ctype (None = no Content-Type header), body, mode normal | redirect | close}; the rest of the path is free (it only
+    feeds mimetypes.guess_type on the client side)."""
+    def __init__(self):
+        import http.server, socket
+        self.scen = {}
+        outer = self
+
+        class H(http.server.BaseHTTPRequestHandler):
+            protocol_version = "HTTP/1.1"
+
+            def log_message(self, *a):  # noqa
+                pass
+
+            def do_GET(self):  # noqa
+                self.close_connection = True
+                try:
+                    key = int(self.path.split("/")[1][1:])
+                    sc = outer.scen[key]
+                except Exception:  # noqa
+                    sc = {"status": 400, "ctype": None, "body": b"", "mode": "normal"}
+                if sc["mode"] == "close":
+                    try:
+                        self.connection.shutdown(socket.SHUT_RDWR)
+                    except OSError:
+                        pass
+                    return
+                body = sc["body"]
+                reason = {200: "OK", 404: "Not Found", 500: "Internal Server Error", 302: "Found", 400: "Bad Request"}.get(sc["status"], "X")
+                head = [f"HTTP/1.1 {sc['status']} {reason}".encode(), b"Content-Length: %d" % len(body), b"Connection: close"]
+                if sc["mode"] == "redirect":
+                    head.append(b"Location: " + sc["location"].encode())
+                if sc["ctype"] is not None:
+                    head.append(b"Content-Type: " + sc["ctype"].encode("latin-1"))
+                try:
+                    self.wfile.write(b"\r\n".join(head) + b"\r\n\r\n" + body)
+                    self.wfile.flush()
+                except OSError:
+                    pass
+        self.srv = http.server.ThreadingHTTPServer(("127.0.0.1", 0), H)
+        self.srv.daemon_threads = True
+        self.port = self.srv.server_address[1]
+        threading.Thread(target=self.srv.serve_forever, daemon=True).start()
+        # a port nobody listens on (connection refused)
+        sk = socket.socket()
+        sk.bind(("127.0.0.1", 0))
+        self.dead_port = sk.getsockname()[1]
+        sk.close()
+
+    def add(self, **sc):
+        k = len(self.scen) + 1
+        self.scen[k] = {"mode": "normal", "status": 200, "ctype": None, "body": b"", **sc}
+        return k
+
+    def url(self, k, tail):
+        return f"http://127.0.0.1:{self.port}/k{k}/{tail}"
+
+    def close(self):
+        try:
+            self.srv.shutdown()
+            self.srv.server_close()
+        except Exception:  # noqa
+            pass
+
+
+VALID_JSON = b'{"openapi": "3.1.0", "info": {"title": "Src API", "version": "1"}, "paths": {"/a": {"get": {"responses": {"200": {"description": "ok"}}}}}}'
+VALID_YAML = b"openapi: '3.1.0'\ninfo:\n  title: Src API\n  version: '1'\npaths:\n  /a:\n    get:\n      responses:\n        '200':\n          description: ok\n"
+JUNK_BOTH = b"{unterminated: [1, 2"        # rejected by the JSON parser and by the YAML parser
+BODIES = {"valid-json": VALID_JSON, "valid-yaml": VALID_YAML, "junk": JUNK_BOTH, "empty": b"", "scalar": b"5", "warn-json": None}
+CTYPES = {"none": None, "json": "application/json", "yaml": "application/yaml", "text": "text/plain", "json-charset": "application/json; charset=utf-8",
+          "json-nospace": "application/json;charset=utf-8", "garbage": ";;;", "upper": "APPLICATION/JSON", "empty": "", "list": "application/json, text/plain"}
+TAILS = {"noext": "openapi", "json": "doc.json", "yaml": "doc.yaml", "yml": "doc.yml", "txt": "doc.txt", "query": "doc?format=x.json", "slash": "spec/", "dotted-dir": "v1.0/spec",
+         "fragment": "doc#/x.json"}
+
+
+def source_cases(rng, server, thorough, nid):
+    """gen cases whose document source is a URL on the local server (plus the path-kind cases)"""
+    import mimetypes
+    BODIES["warn-json"] = json.dumps(mutate.sink_doc()).encode()
+    cases = []
+
+    def mk(label, k, tail, **kw):
+        url = server.url(k, tail)
+        sc = server.scen[k]
+        scn = {"status": sc["status"], "ctype": sc["ctype"], "body_hex": sc["body"].hex() if len(sc["body"]) < 4000 else "", "mode": sc["mode"], "tail": tail}
+        return {"kind": "gen", "id": nid("u"), "label": label, "url": url, "guessed": mimetypes.guess_type(url, strict=True)[0], "suffix": "", "scn": scn, **kw}
+    combos = []
+    for cl in CTYPES:
+        for tl in TAILS:
+            for bl in ("valid-json", "valid-yaml", "junk", "empty"):
+                combos.append((200, cl, tl, bl))
+    for st in (404, 500):
+        for cl in CTYPES:
+            for tl in TAILS:
+                combos.append((st, cl, tl, rng.choice(["valid-json", "junk", "empty", "valid-yaml"])))
+    for cl in ("none", "json", "yaml"):
+        for tl in ("noext", "json", "yaml"):
+            combos.append((200, cl, tl, "scalar"))
+            combos.append((200, cl, tl, "warn-json"))
+    must = [c for c in combos if c[1] == "none" and c[2] in ("noext", "slash", "query", "dotted-dir")]     # header missing and nothing to guess from
+    rest = [c for c in combos if c not in must]
+    if not thorough:
+        rest = rng.sample(rest, 150)
+    for st, cl, tl, bl in must + rest:
+        k = server.add(status=st, ctype=CTYPES[cl], body=BODIES[bl])
+        cases.append(mk(f"source:{st}:ctype-{cl}:path-{tl}:{bl}", k, TAILS[tl], body_kind=bl))
+    # redirects (httpx.get does not follow them), closed socket, connection refused
+    target = server.add(status=200, ctype="application/json", body=VALID_JSON)
+    for tl in ("noext", "json", "yaml"):
+        for cl in ("none", "json"):
+            k = server.add(status=302, mode="redirect", location=server.url(target, "doc.json"), ctype=CTYPES[cl], body=b"")
+            cases.append(mk(f"source:302:ctype-{cl}:path-{tl}:redirect", k, TAILS[tl], body_kind="empty"))
+        k = server.add(mode="close")
+        cases.append(mk(f"source:closed-socket:path-{tl}", k, TAILS[tl], body_kind="none"))
+        url = f"http://127.0.0.1:{server.dead_port}/{TAILS[tl]}"
+        cases.append({"kind": "gen", "id": nid("u"), "label": f"source:refused:path-{tl}", "url": url, "guessed": mimetypes.guess_type(url, strict=True)[0], "suffix": "", "body_kind": "none"})
+    for bad in ("http://[bad", "foo", "ftp://127.0.0.1/x", "http://127.0.0.1:99999/x", "http://127.0.0.1:%d/\u00e9 x" % server.dead_port, "file:///etc/hostname", "http://", "://x"):
+        cases.append({"kind": "gen", "id": nid("u"), "label": "source:bad-url", "url": bad, "guessed": None, "suffix": "", "body_kind": "none"})
+    # --path pointing at something that is not a readable document
+    cases.append({"kind": "gen", "id": nid("u"), "label": "source:path-directory", "path_kind": "dir", "suffix": ""})
+    cases.append({"kind": "gen", "id": nid("u"), "label": "source:path-missing", "path_kind": "missing", "suffix": ""})
+    cases.append({"kind": "gen", "id": nid("u"), "label": "source:path-binary", "hex": bytes(rng.randrange(256) for _ in range(300)).hex(), "suffix": ".bin"})
+    cases.append({"kind": "gen", "id": nid("u"), "label": "source:path-noext-json", "hex": VALID_JSON.hex(), "suffix": ""})
+    cases.append({"kind": "gen", "id": nid("u"), "label": "source:path-noext-yaml", "hex": VALID_YAML.hex(), "suffix": ""})
+    cases.append({"kind": "gen", "id": nid("u"), "label": "source:path-json-suffix-yaml-body", "hex": VALID_YAML.hex(), "suffix": ".json"})
+    return cases
+
+
+def term_source(case, res):
+    """loader dispatch of a URL source vs Norm.content_type_of / choose_parser; None when the loader was not reached"""
+    o = res.get("obs") or {}
+    f = o.get("fetch")
+    if not f or not f.get("ok") or o.get("loader_ct") == "unset":
+        return None
+    hdr = "None" if not f["has_ctype"] else f"(Some {cstr(f['ctype'] or '')})"
+    g = case.get("guessed")
+    guessed = "None" if g is None else f"(Some {cstr(g)})"
+    ct = o["loader_ct"]
+    oct_ = "None" if ct is None else f"(Some {cstr(ct)})"
+    parser = "None"
+    heads = [d[2] for d in res.get("diag", [])]
+    if any(h.startswith("Invalid JSON from provided source") for h in heads):
+        parser = "(Some true)"
+    elif any(h.startswith("Invalid YAML from provided source") for h in heads):
+        parser = "(Some false)"
+    elif case.get("body_kind") == "valid-yaml" and not o.get("load"):
+        parser = "(Some false)"        # block-style YAML is not JSON: it loaded, so the YAML parser ran
+    return f"check_source {hdr} {guessed} {oct_} {parser}"
+
+
+def run_cli_raw(args, prepare=None, limit=LIMIT):
+    """the CLI with an arbitrary argument list; `prepare(root)` may create files and returns extra args"""
+    root = Path(tempfile.mkdtemp(prefix="opc_c06src_"))
+    try:
+        cfg = root / "config.yaml"
+        cfg.write_text("post_hooks: []\n")
+        extra = prepare(root) if prepare else []
+        lst = lambda: sorted(str(p.relative_to(root)) for p in root.rglob("*"))
+        before = lst()
+        cmd = [PY, "-m", "openapi_python_client", "generate", "--meta", "none", "--config", str(cfg), "--output-path", str(root / "out")] + list(args) + list(extra)
+        env = {**os.environ, "PYTHONPATH": str(REPO), "PYTHONHASHSEED": "0", "NO_COLOR": "1", "TERM": "dumb", "_TYPER_STANDARD_TRACEBACK": "1"}
+        t = time.time()
+        try:
+            r = subprocess.run(cmd, capture_output=True, text=True, timeout=limit, env=env, cwd=str(root))
+            res = {"code": r.returncode, "stderr": r.stderr[-2500:], "stdout": r.stdout[-600:], "hang": False, "traceback": "Traceback (most recent call last)" in r.stderr,
+                   "last": (r.stderr.strip().split("\n") or [""])[-1][:200]}
+        except subprocess.TimeoutExpired:
+            res = {"code": None, "stderr": "", "stdout": "", "hang": True, "traceback": False, "last": ""}
+        res["dt"] = round(time.time() - t, 2)
+        res["unchanged"] = before == lst()
+        return res
+    finally:
+        shutil.rmtree(root, ignore_errors=True)
+
+
 # ------------------------------------------------------------------ CLI end to end
 def run_cli(doc_bytes, suffix, fow, mode, overwrite, limit=LIMIT, literal_enums=False):
     root = Path(tempfile.mkdtemp(prefix="opc_c06cli_"))
@@ -483,7 +681,7 @@ def run(run, tier, replay=None):
     run.rule = ("handle: every ERROR/WARNING sequence up to length 3 x fail_on_warning in {False, True, default} (exhaustive) + random lists to length 13 of the four error classes with "
                 "explicit or default levels; generate/cli: valid documents (sink, atlas, corpus, random), their single and double node mutations (replace by wrong type / null / empty / 17 "
                 "$ref forms / 50 contradictory keyword sets, delete, duplicate, rename, mutual $ref in every component section, subtree swap), raw junk offered as .json and .yaml "
-                "(fixed hostile texts, truncations and byte mutations of valid texts, random bytes), JSON values and near-miss dicts as documents, documents planting a schema that fails with a detail-less error (float / bool / list / dict enum; with-detail controls) at every position whose error is re-formatted (sole / every / one-of-several request body media type, inline body property, body items, response, operation / path-item / component parameter in all four locations, component, property, allOf member and parent, union member, additionalProperties, items, ref chain), class-name collision documents across kinds (component / inline / items / union member / additionalProperties / parameter / body / response / title x model / enum / int enum / union / array / allOf, both declaration orders, with and without literal_enums), x output directory fresh / existing / "
+                "(fixed hostile texts, truncations and byte mutations of valid texts, random bytes), JSON values and near-miss dicts as documents, document sources (--url on a local server: Content-Type header x URL extension x body x status / redirect / closed / refused / malformed; --path to a directory, a missing, a binary, an extension-less file; both or neither source), documents planting a schema that fails with a detail-less error (float / bool / list / dict enum; with-detail controls) at every position whose error is re-formatted (sole / every / one-of-several request body media type, inline body property, body items, response, operation / path-item / component parameter in all four locations, component, property, allOf member and parent, union member, additionalProperties, items, ref chain), class-name collision documents across kinds (component / inline / items / union member / additionalProperties / parameter / body / response / title x model / enum / int enum / union / array / allOf, both declaration orders, with and without literal_enums), x output directory fresh / existing / "
                 "missing parent.  A case is non-trivial when the input is not a valid document that generates without diagnostics; distinct = sha1 of the case.")
     run.assumptions += [
         "C06 is partial: 'no Python exception for any byte string' is NOT a theorem; it rests on the junk/mutation exploration whose input distribution is input_histogram",
@@ -504,7 +702,18 @@ def run(run, tier, replay=None):
                 c = dict(c)
                 c["id"] = f"replay{i}"
                 cases.append(c)
-        evaluate(run, [c for c in cases if c["kind"] == "gen"], [c for c in cases if c["kind"] in ("handle", "resolve")], thorough, replaying=True)
+        server = SourceServer()
+        import mimetypes
+        for c in cases:
+            if c.get("scn") and c["scn"].get("mode") != "redirect":       # re-create the server scenario of a --url case
+                sc = c["scn"]
+                k = server.add(status=sc["status"], ctype=sc["ctype"], body=bytes.fromhex(sc.get("body_hex", "")), mode=sc["mode"])
+                c["url"] = server.url(k, sc["tail"])
+                c["guessed"] = mimetypes.guess_type(c["url"], strict=True)[0]
+        try:
+            evaluate(run, [c for c in cases if c["kind"] == "gen"], [c for c in cases if c["kind"] in ("handle", "resolve")], thorough, replaying=True, server=server)
+        finally:
+            server.close()
         return
 
     # ---------------- generate cases
@@ -577,22 +786,27 @@ def run(run, tier, replay=None):
     cases.append(hexcase(nid("w"), "witness:load_depth_crash", b"[" * 100000, ".json"))
     cases.append(doccase(nid("w"), "witness:missing_parent_dir", bases[0][1], out="missing_parent"))
 
+    server = SourceServer()
+    cases += source_cases(rng, server, thorough, nid)
     hcases = handle_cases(rng, N_HANDLE)
     rcases = resolve_cases(rng, N_RESOLVE)
 
     # CLI subset: chosen after the in-process results are known (needs their diagnostics); picked by label class here
-    evaluate(run, cases, hcases + rcases, thorough, n_cli=N_CLI)
+    try:
+        evaluate(run, cases, hcases + rcases, thorough, n_cli=N_CLI, server=server)
+    finally:
+        server.close()
     run.extra["wall_stage_bc_s"] = round(time.time() - t_start, 1)
 
 
-def evaluate(run, cases, pure_cases, thorough, n_cli=0, replaying=False):
+def evaluate(run, cases, pure_cases, thorough, n_cli=0, replaying=False, server=None):
     rng = run.rng
     by_id = {c["id"]: c for c in cases + pure_cases}
-    send = [{k: v for k, v in c.items() if k not in ("doc", "label", "base")} for c in cases + pure_cases]   # literal_enums travels with the case
+    send = [{k: v for k, v in c.items() if k not in ("doc", "label", "base", "guessed", "body_kind", "scn")} for c in cases + pure_cases]   # literal_enums travels with the case
     results = pool_run(send, jobs=14)
 
     terms, owners = [], []     # Coq terms and what they belong to
-    kinds = {"handle": 0, "generate": 0, "loops": 0, "resolve": 0, "cli": 0}
+    kinds = {"handle": 0, "generate": 0, "loops": 0, "resolve": 0, "cli": 0, "source": 0}
     crashes = {}               # site key -> list of (case, res)
     rejected_total = 0
 
@@ -626,7 +840,7 @@ def evaluate(run, cases, pure_cases, thorough, n_cli=0, replaying=False):
         cls = label.split(":")[0] + ":" + (label.split(":")[1] if ":" in label else "")
         brief = {k: v for k, v in c.items() if k not in ("doc",)}
         if r.get("hang"):
-            run.note_case({"label": label, "hex": c.get("hex", c.get("text", ""))[:2000]}, kind=cls)
+            run.note_case({"label": label, "hex": c.get("hex", c.get("text", c.get("label", "") if ("url" in c or "path_kind" in c) else ""))[:2000]}, kind=cls)
             run.violation("oracle", {"what": f"hang: no result within {LIMIT} s", "label": label, "case": brief})
             continue
         if r.get("died") is not None or r.get("worker_error"):
@@ -637,7 +851,7 @@ def evaluate(run, cases, pure_cases, thorough, n_cli=0, replaying=False):
             continue
         exc = r.get("exc")
         nontrivial = not (label.startswith("valid:") and not r.get("final") and not exc)
-        run.note_case({"label": label, "input": c.get("hex", c.get("text", ""))[:4000], "out": c.get("out", "fresh")}, nontrivial=nontrivial, kind=cls)
+        run.note_case({"label": label, "input": c.get("hex", c.get("text", c.get("label", "") if ("url" in c or "path_kind" in c) else ""))[:4000], "out": c.get("out", "fresh")}, nontrivial=nontrivial, kind=cls)
         o = r.get("obs") or {}
         # ---- stage C oracles
         if r.get("dt", 0) > LIMIT:
@@ -659,6 +873,13 @@ def evaluate(run, cases, pure_cases, thorough, n_cli=0, replaying=False):
         t = term_gen(c, r)
         if t is not None:
             add(t, "generate", brief, r)
+        if "url" in c:
+            t = term_source(c, r)
+            if t is not None:
+                add(t, "source", brief, {"fetch": o.get("fetch"), "loader_ct": o.get("loader_ct"), "guessed": c.get("guessed"), "diag": r.get("diag")})
+            f = o.get("fetch") or {}
+            if exc is None and f.get("ok") is False and not o.get("load"):
+                run.violation("oracle", {"what": "fetch failed but no loader diagnostic was returned", "label": label, "case": brief, "final": r.get("final")})
         for lp in o.get("loops", []):
             if -1 in lp["errs"] or any(x[0] < 0 for x in lp["calls"]) or (lp["left"] and -1 in lp["left"]):
                 run.violation("correspondence", {"what": "loop observation could not be mapped to items", "label": label, "case": brief, "loop": lp})
@@ -678,7 +899,7 @@ def evaluate(run, cases, pure_cases, thorough, n_cli=0, replaying=False):
         strata = {}
         for c in cases:
             r = results.get(c["id"]) or {}
-            if r.get("hang") or r.get("died") is not None or "final" not in r:
+            if r.get("hang") or r.get("died") is not None or "final" not in r or "url" in c or "path_kind" in c:
                 continue
             lv = [l for _, l in r["final"]]
             o = r.get("obs") or {}
@@ -706,7 +927,7 @@ def evaluate(run, cases, pure_cases, thorough, n_cli=0, replaying=False):
                 r = results[c["id"]]
                 label = c.get("label", "?")
                 brief = {k: v for k, v in c.items() if k not in ("doc",)}
-                run.note_case({"cli": label, "fow": fow, "input": c.get("hex", c.get("text", ""))[:4000], "out": c.get("out", "fresh")}, kind="cli:" + label.split(":")[0])
+                run.note_case({"cli": label, "fow": fow, "input": c.get("hex", c.get("text", c.get("label", "") if ("url" in c or "path_kind" in c) else ""))[:4000], "out": c.get("out", "fresh")}, kind="cli:" + label.split(":")[0])
                 if cr["hang"]:
                     run.violation("oracle", {"what": f"CLI hang (> {LIMIT} s)", "label": label, "case": brief, "fow": fow})
                     continue
@@ -726,10 +947,95 @@ def evaluate(run, cases, pure_cases, thorough, n_cli=0, replaying=False):
                 if cr["unchanged"] != r["unchanged"]:
                     run.violation("correspondence", {"what": "CLI and in-process run disagree on whether anything was written", "label": label, "case": brief, "cli_unchanged": cr["unchanged"]})
 
+    # ---- the CLI on the document-source family (--url against the local server; argument-level source errors)
+    if server is not None:
+        import concurrent.futures as cf
+        src = [c for c in cases if "url" in c and "final" in (results.get(c["id"]) or {})]
+        chosen = [c for c in src if ":ctype-none:" in c["label"] and any(f":path-{t}:" in c["label"] for t in ("noext", "slash", "query", "dotted-dir")) and c["label"].startswith("source:200")]
+        others = [c for c in src if c not in chosen]
+        by = {}
+        for c in others:
+            by.setdefault(c["label"].split(":")[1], []).append(c)      # 200 / 404 / 500 / 302 / closed-socket / refused / bad-url
+        for k in sorted(by):
+            chosen += rng.sample(by[k], min(len(by[k]), 6 if thorough else 2))
+        if not thorough:
+            keep = [c for c in chosen if ":ctype-none:" in c["label"]]
+            chosen = (keep[:14] if len(keep) > 14 else keep) + [c for c in chosen if ":ctype-none:" not in c["label"]]
+        jobs = []
+        for j, c in enumerate(chosen):
+            fow = j % 3 == 2
+            jobs.append(("url", c, fow, ["--url", c["url"]] + (["--fail-on-warning"] if fow else []), None))
+
+        def prep(kind):
+            def f(root):
+                if kind == "dir":
+                    (root / "adir").mkdir()
+                    return ["--path", str(root / "adir")]
+                if kind == "missing":
+                    return ["--path", str(root / "nope.json")]
+                (root / "ok.json").write_bytes(VALID_JSON)
+                if kind == "both":
+                    return ["--path", str(root / "ok.json"), "--url", f"http://127.0.0.1:{server.dead_port}/x"]
+                if kind == "empty-url":
+                    return ["--url", ""]
+                if kind == "bad-encoding":
+                    return ["--path", str(root / "ok.json"), "--file-encoding", "no-such-codec"]
+                if kind == "bad-config":
+                    (root / "bad.yaml").write_text("post_hooks: {a: [")
+                    return ["--path", str(root / "ok.json"), "--config", str(root / "bad.yaml")]
+                return []
+            return f
+        for kind in ("both", "neither", "empty-url", "bad-encoding", "bad-config", "dir", "missing"):
+            jobs.append(("args", {"label": f"source:args-{kind}", "kind": "gen", "path_kind": kind if kind in ("dir", "missing") else None}, False, [], prep(kind)))
+        with cf.ThreadPoolExecutor(max_workers=12) as ex:
+            futs = {ex.submit(run_cli_raw, a, pr): (what, c, fow) for what, c, fow, a, pr in jobs}
+            for f in cf.as_completed(futs):
+                what, c, fow = futs[f]
+                cr = f.result()
+                label = c["label"]
+                brief = {k: v for k, v in c.items() if k not in ("doc",)}
+                run.note_case({"cli-source": label, "fow": fow}, kind="cli-source:" + (label.split(":")[1] if what == "url" else "args"))
+                if cr["hang"]:
+                    run.violation("oracle", {"what": f"CLI hang (> {LIMIT} s)", "label": label, "case": brief, "fow": fow})
+                    continue
+                if what == "args":
+                    kind = label.split("args-")[1]
+                    if kind in ("dir", "missing"):
+                        if cr["traceback"]:
+                            typ = cr["last"].split(":")[0]
+                            if not (typ in ("IsADirectoryError", "FileNotFoundError") and "_get_document" in cr["stderr"]
+                                    and run.known_finding("source_path_oserror", f"CLI --path to a {kind} target: uncaught {cr['last'][:120]}")):
+                                run.violation("oracle", {"what": "traceback on the CLI's stderr", "label": label, "cli": cr})
+                        elif cr["code"] != 1 or not cr["unchanged"]:
+                            run.violation("oracle", {"what": "unreadable --path: expected exit 1 and nothing written", "label": label, "cli": cr})
+                        continue
+                    if cr["traceback"]:
+                        run.violation("oracle", {"what": "traceback on the CLI's stderr", "label": label, "cli": cr})
+                    elif kind == "bad-config":
+                        if cr["code"] == 0 or not cr["unchanged"]:
+                            run.violation("oracle", {"what": "unparsable --config: expected a usage error (non-zero exit) and nothing written", "label": label, "cli": cr})
+                    elif cr["code"] != 1 or not cr["unchanged"]:
+                        run.violation("oracle", {"what": "source argument error: documented exit status is 1 with nothing written", "label": label, "cli": cr})
+                    continue
+                r = results[c["id"]]
+                if r.get("exc") is not None:
+                    if not cr["traceback"]:
+                        run.violation("correspondence", {"what": "in-process run raised but the CLI printed no traceback", "label": label, "case": brief, "exc": r["exc"], "cli": cr})
+                    continue
+                if cr["traceback"]:
+                    run.violation("oracle", {"what": "traceback on the CLI's stderr", "label": label, "case": brief, "fow": fow, "stderr": cr["stderr"][-1200:]})
+                    continue
+                levels = clist([f"({'E' if l == 'E' else 'W'} {i})" for i, (_, l) in enumerate(r["final"])], "diag")
+                add(f"(exit_code {levels} {cbool(fow)} =? {cN(cr['code'])})", "cli", brief, {"fow": fow, "cli": cr, "final": r["final"]})
+                o = r.get("obs") or {}
+                if (o.get("load") or o.get("validation")) and not cr["unchanged"]:
+                    run.violation("oracle", {"what": "CLI: rejected document but the directory listing changed", "label": label, "case": brief})
+        run.extra["cli_source_runs"] = len(jobs)
+
     # ---- evaluate the correspondence in Coq
     bad = run_cases(HDR, terms) if terms else []
     run.corr = {"cases": len(terms), "mismatches": len(bad), "by_kind": kinds,
-                "what": "cli.handle_errors (exit, banner, printed order); generate outcome / tree effect / error aggregation by identity; retry-loop replay (attempt order, stop point, kept errors, leftovers); _resolve_reference; CLI exit status vs exit_code of the in-process diagnostics"}
+                "what": "cli.handle_errors (exit, banner, printed order); generate outcome / tree effect / error aggregation by identity; retry-loop replay (attempt order, stop point, kept errors, leftovers); _resolve_reference; CLI exit status vs exit_code of the in-process diagnostics; URL sources: content type handed to the loader and parser used vs Norm.content_type_of / choose_parser"}
     for i in bad[:30]:
         kind, case, extra = owners[i]
         model = ""
